@@ -20,6 +20,7 @@ type HookEvent struct {
 	ClientPtr *mqtt.Client
 }
 
+//go:norace
 func (e HookEvent) String() string {
 	return fmt.Sprintf("%s(%s t=%q p=%q id=%d %s)", e.Name, e.Client, e.Topic, e.Tag, e.PID, e.Extra)
 }
@@ -38,6 +39,7 @@ type RecHook struct {
 	Quiet      bool // do not record
 }
 
+//go:norace
 func (h *RecHook) ID() string {
 	if h.Name != "" {
 		return h.Name
@@ -45,6 +47,7 @@ func (h *RecHook) ID() string {
 	return "rec"
 }
 
+//go:norace
 func (h *RecHook) Provides(b byte) bool {
 	switch b {
 	case mqtt.OnConnectAuthenticate, mqtt.OnACLCheck:
@@ -62,8 +65,10 @@ func (h *RecHook) Provides(b byte) bool {
 	return true
 }
 
+//go:norace
 func (h *RecHook) Init(config any) error { return nil }
 
+//go:norace
 func (h *RecHook) rec(e HookEvent) {
 	if h.Quiet || h.W == nil {
 		return
@@ -71,6 +76,10 @@ func (h *RecHook) rec(e HookEvent) {
 	h.W.Events = append(h.W.Events, e)
 }
 
+//go:norace
+func (h *RecHook) off() bool { return h.Quiet || h.W == nil }
+
+//go:norace
 func (h *RecHook) OnConnectAuthenticate(cl *mqtt.Client, pk packets.Packet) bool {
 	if h.Auth == nil {
 		return true
@@ -78,6 +87,7 @@ func (h *RecHook) OnConnectAuthenticate(cl *mqtt.Client, pk packets.Packet) bool
 	return h.Auth(cl, pk)
 }
 
+//go:norace
 func (h *RecHook) OnACLCheck(cl *mqtt.Client, topic string, write bool) bool {
 	if h.ACL == nil {
 		return true
@@ -85,16 +95,22 @@ func (h *RecHook) OnACLCheck(cl *mqtt.Client, topic string, write bool) bool {
 	return h.ACL(cl, topic, write)
 }
 
+//go:norace
 func (h *RecHook) OnPublish(cl *mqtt.Client, pk packets.Packet) (packets.Packet, error) {
 	return h.Publish(cl, pk)
 }
+
+//go:norace
 func (h *RecHook) OnPacketRead(cl *mqtt.Client, pk packets.Packet) (packets.Packet, error) {
 	return h.PacketRead(cl, pk)
 }
+
+//go:norace
 func (h *RecHook) OnSelectSubscribers(subs *mqtt.Subscribers, pk packets.Packet) *mqtt.Subscribers {
 	return h.Select(subs, pk)
 }
 
+//go:norace
 func ev(name string, cl *mqtt.Client, pk packets.Packet) HookEvent {
 	id := ""
 	if cl != nil {
@@ -103,61 +119,111 @@ func ev(name string, cl *mqtt.Client, pk packets.Packet) HookEvent {
 	return HookEvent{Name: name, Client: id, Topic: pk.TopicName, Tag: string(pk.Payload), PID: pk.PacketID, Type: pk.FixedHeader.Type, ClientPtr: cl}
 }
 
+//go:norace
 func (h *RecHook) OnSessionEstablish(cl *mqtt.Client, pk packets.Packet) {
 	h.rec(ev("OnSessionEstablish", cl, pk))
 }
+
+//go:norace
 func (h *RecHook) OnSessionEstablished(cl *mqtt.Client, pk packets.Packet) {
 	h.rec(ev("OnSessionEstablished", cl, pk))
 }
+
+//go:norace
 func (h *RecHook) OnDisconnect(cl *mqtt.Client, err error, expire bool) {
+	if h.off() {
+		return
+	}
 	e := ev("OnDisconnect", cl, packets.Packet{})
 	e.Extra = fmt.Sprintf("expire=%v err=%v", expire, err)
 	h.rec(e)
 }
+
+//go:norace
 func (h *RecHook) OnPacketSent(cl *mqtt.Client, pk packets.Packet, b []byte) {
+	if h.off() {
+		return
+	}
 	e := ev("OnPacketSent", cl, pk)
 	e.Bytes = append([]byte{}, b...)
 	h.rec(e)
 }
+
+//go:norace
 func (h *RecHook) OnPacketProcessed(cl *mqtt.Client, pk packets.Packet, err error) {
+	if h.off() {
+		return
+	}
 	e := ev("OnPacketProcessed", cl, pk)
 	e.Extra = fmt.Sprint(err)
 	h.rec(e)
 }
+
+//go:norace
 func (h *RecHook) OnSubscribed(cl *mqtt.Client, pk packets.Packet, rc []byte) {
+	if h.off() {
+		return
+	}
 	e := ev("OnSubscribed", cl, pk)
 	e.Extra = fmt.Sprintf("%x", rc)
 	h.rec(e)
 }
+
+//go:norace
 func (h *RecHook) OnUnsubscribed(cl *mqtt.Client, pk packets.Packet) {
 	h.rec(ev("OnUnsubscribed", cl, pk))
 }
+
+//go:norace
 func (h *RecHook) OnPublished(cl *mqtt.Client, pk packets.Packet) { h.rec(ev("OnPublished", cl, pk)) }
+
+//go:norace
 func (h *RecHook) OnPublishDropped(cl *mqtt.Client, pk packets.Packet) {
 	h.rec(ev("OnPublishDropped", cl, pk))
 }
+
+//go:norace
 func (h *RecHook) OnRetainMessage(cl *mqtt.Client, pk packets.Packet, r int64) {
+	if h.off() {
+		return
+	}
 	e := ev("OnRetainMessage", cl, pk)
 	e.Extra = fmt.Sprint(r)
 	h.rec(e)
 }
+
+//go:norace
 func (h *RecHook) OnRetainPublished(cl *mqtt.Client, pk packets.Packet) {
 	h.rec(ev("OnRetainPublished", cl, pk))
 }
+
+//go:norace
 func (h *RecHook) OnQosPublish(cl *mqtt.Client, pk packets.Packet, sent int64, resends int) {
 	h.rec(ev("OnQosPublish", cl, pk))
 }
+
+//go:norace
 func (h *RecHook) OnQosComplete(cl *mqtt.Client, pk packets.Packet) {
 	h.rec(ev("OnQosComplete", cl, pk))
 }
+
+//go:norace
 func (h *RecHook) OnQosDropped(cl *mqtt.Client, pk packets.Packet) { h.rec(ev("OnQosDropped", cl, pk)) }
+
+//go:norace
 func (h *RecHook) OnPacketIDExhausted(cl *mqtt.Client, pk packets.Packet) {
 	h.rec(ev("OnPacketIDExhausted", cl, pk))
 }
+
+//go:norace
 func (h *RecHook) OnWillSent(cl *mqtt.Client, pk packets.Packet) { h.rec(ev("OnWillSent", cl, pk)) }
+
+//go:norace
 func (h *RecHook) OnClientExpired(cl *mqtt.Client) {
 	h.rec(ev("OnClientExpired", cl, packets.Packet{}))
 }
+
+//go:norace
 func (h *RecHook) OnRetainedExpired(topic string) {
 	h.rec(HookEvent{Name: "OnRetainedExpired", Topic: topic})
 }
